@@ -496,7 +496,11 @@ def patch_offsets(forest, nodes):
             tfhd = next((k[4] for k, _ in pairs if k[3] == "tfhd"), None)
             truns = [k[4] for k, _ in pairs if k[3] == "trun" and k[4].get("_patch")]
             base = moof_pos
-            if tfhd is not None and tfhd["flags"] & 1:
+            if tfhd is not None and tfhd["flags"] & 1 and tfhd.get("_base_mode"):
+                # the grid pins the explicit base: start of the file, the moof, the mdat payload
+                base = {"zero": 0, "moof": moof_pos, "mdat": target}[tfhd["_base_mode"]]
+                tfhd["base_data_offset"] = base
+            elif tfhd is not None and tfhd["flags"] & 1:
                 if any(not t["flags"] & 1 for t in truns) and target is not None:
                     base = target              # a run without data_offset starts at the base itself
                 else:
@@ -523,6 +527,7 @@ def strip_marks(forest):
         else:
             t[4].pop("_patch", None)
             t[4].pop("_rebase", None)
+            t[4].pop("_base_mode", None)
     return forest
 
 
@@ -670,6 +675,33 @@ def grid_cases():
         ps["key_ids"] = [(b"0x" + b"00112233445566")[:16], P.fixed(rr, 16)]
         te = gen_fields("tenc", rr); te["default_kid"] = b"0xdeadbeefcafe00" if i == 0 else P.fixed(rr, 16)
         out.append((f"fixed-width:{i}", [leaf("pssh", "pssh", ps), leaf("tenc", "tenc", te)], ctx0))
+    # explicit tfhd.base_data_offset (flag present): 0 = start of the file (falsy but legal), the moof, the
+    # mdat payload x the moof at offset 0 / behind a styp x encrypted (saiz, one-entry saio, senc) / clear
+    for mode in ("zero", "moof", "mdat"):
+        for prefix in (False, True):
+            for enc in (False, True):
+                rr = random.Random(f"grid:base:{mode}:{prefix}:{enc}")
+                tf = dict(version=0, flags=0x01, track_id=1, base_data_offset=0, sample_description_index=0,
+                          default_sample_duration=0, default_sample_size=0, default_sample_flags=0, _base_mode=mode)
+                kids = [leaf("tfhd", "tfhd", tf), leaf("tfdt", "tfdt", dict(version=0, flags=0, base_media_decode_time=9))]
+                c = ctx0
+                if enc:
+                    iv = b"0x" + bytes(range(6))
+                    kids += [leaf("saiz", "saiz", dict(version=0, flags=0, aux_info_type=0, aux_info_type_parameter=0,
+                                                       default_sample_info_size=8, sample_count=1, sample_info_sizes=[])),
+                             leaf("saio", "saio", dict(version=0, flags=0, aux_info_type=0, aux_info_type_parameter=0,
+                                                       offsets=[0] if mode != "mdat" else [0, 0],
+                                                       **({"_patch": True} if mode != "mdat" else {}))),
+                             leaf("senc", "senc", dict(version=0, flags=0, algorithm_id=0, iv_size=8, kid=b"", samples=[(iv, [])]))]
+                    c = (8, 8, [])
+                kids.append(leaf("trun", "trun", dict(version=0, flags=0x201, sample_count=1, data_offset=0,
+                                                      first_sample_flags=0, samples=[(0, 4, 0, 0)], _patch=True)))
+                forest = ([leaf("styp", "ftyp", dict(major_brand=b"msdh", minor_version=0, compatible_brands=[b"msdh"]))]
+                          if prefix else []) + \
+                    [("N", cc("moof"), False, [leaf("mfhd", "mfhd", dict(version=0, flags=0, sequence_number=1)),
+                                               ("N", cc("traf"), False, kids)]),
+                     leaf("mdat", "opaque", dict(data=b"abcd"))]
+                out.append((f"explicit-base:{mode}:{'styp' if prefix else 'start'}:{'enc' if enc else 'clear'}", forest, c))
     # strings: escapes, entities, placeholders, multi-byte
     for i, txt in enumerate(["urn:a%20b+c&d;e=f", "&nbsp;&#0;&lt;", "{placeholder} }{", "0x1234", "日本語€𝄞", "", "a" * 1024]):
         e = gen_fields("emsg", random.Random(i)); e["scheme_id_uri"] = txt.encode(); e["value"] = txt[::-1].encode()
